@@ -542,13 +542,22 @@ func main() {
 			Notes []string `json:"notes"`
 		}
 		var all []obs
+		soloHangs := 0
 		for i := *lo; i < *hi; i++ {
 			cs := &cases[i]
 			o := obs{Case: cs.ID}
 			for t := 1; t <= len(cs.Threads); t++ {
+				if soloHangs >= 2 { // commands that hang by themselves are C04's business; do not wait 65 s for each of them
+					o.Notes = append(o.Notes, "not observed (two commands already hung alone)")
+					o.Progs = append(o.Progs, []Step{})
+					continue
+				}
 				r := runCase(cs, nil, t)
 				if r.outcome != "ok" {
 					o.Notes = append(o.Notes, fmt.Sprintf("thread %d alone: %s %s", t, r.outcome, r.detail))
+					if r.outcome == "hang" {
+						soloHangs++
+					}
 				}
 				p := r.progs[t-1]
 				if p == nil {
@@ -581,8 +590,8 @@ func main() {
 		}
 		var hm []hmap
 		h := *hbase
-		replays, distinct, exact, anomalies, totalOps := 0, 0, 0, 0, 0
-		for i := *lo; i < *hi; i++ {
+		replays, distinct, exact, anomalies, totalOps, hangs := 0, 0, 0, 0, 0, 0
+		for i := *lo; i < *hi && hangs < 2; i++ { // a hang costs 65 s of waiting: two witnesses per process are enough
 			cs := &cases[i]
 			seen := map[string]bool{}
 			for _, sc := range scheds[strconv.Itoa(cs.Tuple)] {
@@ -597,6 +606,12 @@ func main() {
 				}
 				if r.outcome != "ok" {
 					report(r.outcome, r.detail)
+					if r.outcome == "hang" {
+						hangs++
+						if hangs >= 2 {
+							break
+						}
+					}
 					continue
 				}
 				db := r.srv.Mgr.DBs[0]
